@@ -750,6 +750,8 @@ def check_case(inp, out):
     from icalendar.timezone import tzp, tzid_from_dt
     route, k, w, fam, fold = inp['route'], inp['zone'], tuple(inp['wall']), inp.get('family', 'provider'), inp.get('fold', 0)
     d = make_dt(fam, k, w, fold)
+    if inp.get('micro'):
+        d = d.replace(microsecond=inp['micro'])     # datetime.now(tz) has microseconds; the text has whole seconds
     if d is None:
         return 0
     if tzp.timezone(k) is None:
@@ -853,7 +855,7 @@ def check_case(inp, out):
                 name, ';TZID=%s:' % params['TZID'] if 'TZID' in params else '', text, want), cls)
         c2 = type(c).from_ical(ical)
         v = c2[name].dt if name in c2 else None
-        if not isinstance(v, datetime) or v.tzinfo is None or instant(v) != instant(d) or tzid_from_dt(v) != 'UTC':
+        if not isinstance(v, datetime) or v.tzinfo is None or instant(v) != instant(d.replace(microsecond=0)) or tzid_from_dt(v) != 'UTC':
             viol(out, 'utc-reread', inp, '%s read back as %r, not the instant %r in UTC' % (name, v, d), cls)
     elif kind == 'trigger':
         cls = 'absolute-trigger-loses-zone' if k != 'UTC' else None
@@ -911,7 +913,8 @@ def zone_job(args):
                 wend = fields(datetime(*w) + timedelta(days=2, seconds=rng.randrange(86400)))
                 if wend[0] <= 2100:
                     cases.append(dict(base, route='period:%s:end' % ('RDATE', 'FREEBUSY')[n % 2], end=list(wend)))
-                cases.append(dict(base, route='utc:add:' + ('DTSTAMP', 'CREATED', 'LAST-MODIFIED', 'ACKNOWLEDGED')[n % 4], fold=n % 2))
+                cases.append(dict(base, route='utc:add:' + ('DTSTAMP', 'CREATED', 'LAST-MODIFIED', 'ACKNOWLEDGED')[n % 4], fold=n % 2,
+                                  micro=(250000 if n % 3 == 0 else 0)))
                 cases.append(dict(base, route='utc:set:' + ('DTSTAMP', 'LAST-MODIFIED', 'ACKNOWLEDGED')[n % 3], fold=(n + 1) % 2))
             if r == 1:
                 for fam in ('zi', 'pytz', 'du'):
@@ -978,6 +981,9 @@ def oracle(ctx):
                 {'route': 'single:DTSTART', 'zone': B, 'wall': [2020, 10, 25, 2, 30, 0], 'fold': 1},
                 {'route': 'utc:add:DTSTAMP', 'zone': B, 'wall': [2020, 10, 25, 2, 30, 0], 'fold': 1},
                 {'route': 'utc:add:CREATED', 'zone': 'Pacific/Apia', 'wall': [2011, 12, 29, 23, 59, 59], 'fold': 0},
+                {'route': 'utc:add:DTSTAMP', 'zone': B, 'wall': [2021, 10, 31, 2, 30, 0], 'fold': 1, 'micro': 250000},
+                {'route': 'utc:add:LAST-MODIFIED', 'zone': 'Australia/Lord_Howe', 'wall': [2021, 4, 4, 1, 45, 0], 'fold': 1, 'micro': 1},
+                {'route': 'utc:set:DTSTAMP', 'zone': B, 'wall': [2021, 10, 31, 2, 30, 0], 'fold': 1, 'micro': 999999},
             ]
             for inp in fixed:
                 inp = dict(inp, provider=prov)
@@ -994,6 +1000,41 @@ def oracle(ctx):
                 check_case(i2, out)
     for kind, inp, detail, cls in out:
         ctx.violation(kind, inp, detail, cls)
+    check_defined_zone_does_not_shadow(ctx)
+
+
+def check_defined_zone_does_not_shadow(ctx):
+    """a calendar may define a zone of its own whose TZID differs from a tz database key only in letter case or by
+    a leading slash; values in the database zone, written and read afterwards, are still in the database zone"""
+    import icalendar
+    from icalendar import Calendar, Event
+    from harness.props.C09 import CUSTOM_TZ
+    for prov in PROVIDERS:
+        for tzid in ('europe/berlin', 'EUROPE/BERLIN', 'Europe/berlin', '/Europe/Berlin/', 'america/new_york'):
+            key = 'America/New_York' if 'new' in tzid.lower() else 'Europe/Berlin'
+            getattr(icalendar, 'use_' + prov)()          # a fresh zone cache
+            try:
+                inp = {'provider': prov, 'defined': tzid, 'zone': key}
+                ctx.evaluated(('shadow', prov, tzid))
+                try:
+                    Calendar.from_ical(CUSTOM_TZ.replace(b'%s', tzid.encode()))
+                except ValueError:
+                    pass
+                # (no provider switch from here on: switching resets the cache this probe is about)
+                for w in ((1975, 7, 1, 12, 0, 0), (2024, 1, 15, 9, 0, 0), (2024, 7, 15, 9, 0, 0)):
+                    d = make_dt('zi' if prov == 'zoneinfo' else 'pytz', key, w)     # the database's own zone object
+                    e = Event()
+                    e.add('dtstart', d)
+                    e.add('rdate', [d])
+                    back = Event.from_ical(e.to_ical())
+                    for name, v in (('DTSTART', back['DTSTART'].dt), ('RDATE', back['RDATE'].dts[0].dt)):
+                        if v.utcoffset() != d.utcoffset() or key_of(v.tzinfo) != key:
+                            ctx.violation('defined-zone-shadows-database-zone', dict(inp, wall=list(w), property=name),
+                                          f'after a calendar defined TZID {tzid}, {name} {d!r} was read back as {v!r} '
+                                          f'(offset {v.utcoffset()}, zone {key_of(v.tzinfo)})')
+                            break
+            finally:
+                icalendar.use_zoneinfo()
 
 
 def replay(ctx, data):
